@@ -424,7 +424,8 @@ impl<'a> Printer<'a> {
         let s = self.expr_inner(x, tail);
         match &x.kind {
             EKind::Var(_) | EKind::Int(_) | EKind::Str(_) | EKind::Bool(_) => s,
-            EKind::If(..) | EKind::Case { .. } | EKind::Lambda(_) => s,
+            // statement-position if/case (type void) are statements, not parenthesisable expressions
+            EKind::If(..) | EKind::Case { .. } if x.ty == Ty::Void => s,
             _ => self.paren_opt(s),
         }
     }
